@@ -369,6 +369,9 @@ class Check:
             if f.startswith(self.prop + "-"):
                 os.remove(os.path.join(REPLAYS, f))
         lines, nviol = [], 0
+        cm = sys.modules.get("corpus")
+        for name, err in sorted(getattr(cm, "FAILED", {}).items()) if cm is not None else []:
+            self.tie_broken(f"corpus:{name}", f"corpus member {name} no longer generates (it does on the pinned tree), so the property cannot be checked on it: {err}")
         known = [k for k in self.known.get("findings", []) if k["property"] == self.prop]
         reported_known = set()
         unknown = []
